@@ -8,7 +8,7 @@ CONSTANT Triples   \* also emit queries with three state sets
 
 EvJson(i) == [id |-> i, type |-> E[i].type, sender |-> E[i].sender, skey |-> E[i].skey, membership |-> E[i].membership,
               plu |-> E[i].plu, jr |-> E[i].jr, prev |-> E[i].prev, auth |-> E[i].auth, depth |-> E[i].depth,
-              ts |-> E[i].ts, idr |-> E[i].idr, sha |-> E[i].sha]
+              ts |-> E[i].ts, idr |-> E[i].idr, sha |-> E[i].sha, addl |-> E[i].addl]
 
 \* free events that some other event cites as an auth event: candidates for the caller's rejected-event oracle
 RejectCandidates == {x \in DOMAIN E : x > Base /\ \E y \in DOMAIN E : x \in E[y].auth}
